@@ -117,3 +117,43 @@ mutant("c19-argument-deleted", "C19", "jax2onnx/plugins/jax/numpy/squeeze.py", "
 mutant("c19-bind-key-not-accepted", "C19", JT, "return cls._PRIM.bind(arr, permutation=axes_tuple)", "return cls._PRIM.bind(arr, permutation=axes_tuple, conjugate=False)", expect="conjugate")
 benign("c19-benign-extra-kwargs-catchall", "C19", JT, "def _patched(a: ArrayLike, axes: AxesArg = None) -> jax.Array:", "def _patched(a: ArrayLike, axes: AxesArg = None, *more: object) -> jax.Array:\n                if more:\n                    raise TypeError('too many arguments')")
 benign("c19-benign-annotation-change", "C19", JT, "def _patched(a: ArrayLike, axes: AxesArg = None) -> jax.Array:", "def _patched(a: object, axes: object = None) -> jax.Array:")
+
+# ----------------------------------------------------------------------------- C02
+mutant("c02-reduce-observation-guard-removed", "C02", OPT, "            if _value_is_observed(graph, nodes, reducer_out_val):\n", "            if False:\n", expect="remeant::reducer")
+mutant("c02-add-forest-guard-removed", "C02", OPT, "            if _any_node_output_observed(graph, nodes, add_nodes):\n", "            if False:\n", expect="remeant::add_nodes")
+mutant("c02-add-chain-guard-removed", "C02", OPT, "            if _any_node_output_observed(graph, nodes, add_chain):\n                continue\n", "", expect="add_chain")
+mutant("c02-forest-guard-removed", "C02", OPT, "            if _any_node_output_observed(graph, nodes, elem_nodes):\n                continue\n", "", expect="remeant::elem_nodes")
+mutant("c02-forest-input-transpose-graph-output", "C02", OPT, "                if _value_is_observed(graph, live_nodes, t_out):\n                    continue\n", "", expect="removed::t_node")
+mutant("c02-chain-t1-output-guard-removed", "C02", OPT, "            if _value_is_observed(graph, nodes, t1_out) or _any_node_output_observed(\n                graph, nodes, elem_nodes\n            ):",
+       "            if _any_node_output_observed(\n                graph, nodes, elem_nodes\n            ):", expect="removed::T1")
+mutant("c02-chain-elem-guard-removed", "C02", OPT, "            if _value_is_observed(graph, nodes, t1_out) or _any_node_output_observed(\n                graph, nodes, elem_nodes\n            ):",
+       "            if _value_is_observed(graph, nodes, t1_out):", expect="remeant::elem_nodes")
+mutant("c02-case1-t1-guard-removed", "C02", OPT, "                if _value_is_observed(\n                    graph, nodes, T1_out\n                ) or _any_node_output_observed(graph, nodes, allowed_nodes):",
+       "                if _any_node_output_observed(graph, nodes, allowed_nodes):", expect="::T1")
+mutant("c02-case1-carriers-guard-removed", "C02", OPT, "                if _value_is_observed(\n                    graph, nodes, T1_out\n                ) or _any_node_output_observed(graph, nodes, allowed_nodes):",
+       "                if _value_is_observed(\n                    graph, nodes, T1_out\n                ):", expect="remeant::allowed_nodes")
+mutant("c02-reshape-guards-removed", "C02", OPT, "            if safe_chain and (\n                _value_is_observed(graph, nodes, t1_out)\n                or _any_node_output_observed(graph, nodes, allowed_fwd)\n            ):", "            if safe_chain and False:", expect="remove_redundant_reshape_pairs_ir")
+mutant("c02-inline-allowed-set-walk", "C02", OPT, "                    if _is_first_input_passthrough(m):\n", "                    if m.op_type in ALLOWED_ELEMWISE:\n", expect="walk::Max")
+mutant("c02-passthrough-binary-branch-removed", "C02", OPT, "    if node.op_type in ELEMENTWISE_BINARY_OPS:\n        return all(\n            iv is None or _is_scalar_const_value(iv) for iv in _node_inputs(node)[1:]\n        )\n    return True", "    return True", expect="walk::M")
+mutant("c02-mul-added-to-allowed", "C02", OPT, 'ALLOWED_ELEMWISE: Set[str] = {\n    "Elu",', 'ALLOWED_ELEMWISE: Set[str] = {\n    "PRelu",\n    "Elu",', expect="walk::PRelu")
+mutant("c02-shapes-compatible-wildcards", "C02", OPT,
+       "    da, db = _shape_dims_seq(a.shape), _shape_dims_seq(b.shape)\n    if da is None or db is None or len(da) != len(db):\n        return False\n",
+       "    ta, tb = _shape_tuple(a), _shape_tuple(b)\n    if ta is None or tb is None or len(ta) != len(tb):\n        return False\n    for xa, xb in zip(ta, tb):\n        if xa == -1 or xb == -1:\n            continue\n        if xa != xb:\n            return False\n    return True\n    da, db = _shape_dims_seq(a.shape), _shape_dims_seq(b.shape)\n",
+       expect="R-C02c")
+mutant("c02-dropout-constant-not-inserted", "C02", OPT, "                        false_value = _constant_false_value()\n                        graph.insert_before(\n                            nodes[0],\n                            ir.Node(", "                        false_value = _constant_false_value()\n                        _unused = (\n                            nodes[0],\n                            dict(", expect="R-C02d")
+mutant("c02-reduce-axes-initializer-in-function-body", "C02", OPT, "                    graph.insert_before(\n                        reducer,\n                        ir.Node(", "                    graph.initializers.add(new_axes_val)\n                    _unused = (\n                        reducer,\n                        dict(", expect="R-C02e")
+mutant("c02-case2-inverse-perm-check-dropped", "C02", OPT, "                    if perm2 is None or not _is_inverse_perm(perm1, perm2):\n                        continue\n                    # Found a direct T2", "                    if perm2 is None:\n                        continue\n                    # Found a direct T2", expect="R-C02f")
+mutant("c02-inverse-perm-same-operand", "C02", OPT, "                if perm1 is None or perm2 is None or not _is_inverse_perm(perm1, perm2):\n                    i += 1", "                if perm1 is None or perm2 is None or not _is_inverse_perm(perm1, perm1):\n                    i += 1", expect="R-C02f")
+mutant("c02-reduce-keepdims-check-dropped", "C02", OPT, "            if keepdims != 1:\n                continue\n", "", expect="keepdims")
+mutant("c02-reshape-shape-check-dropped", "C02", OPT, "            if not _shapes_compatible(src, dst):\n                i += 1\n                continue\n", "", expect="_shapes_compatible")
+mutant("c02-identity-reshape-check-dropped", "C02", OPT, "            if not _shapes_match_exact(src_dims, target_dims):\n                continue\n            dst_val = outs[0]", "            dst_val = outs[0]", expect="_shapes_match_exact")
+mutant("c02-cast-observed-intermediate-removed", "C02", OPT, "                                if intermediate_is_observed:\n                                    graph.remove(next_node)\n                                else:\n                                    graph.remove([n, next_node])", "                                graph.remove([n, next_node])", expect="removed::n")
+mutant("c02-swish-sigmoid-output-guard-removed", "C02", OPT, "            if not _value_is_graph_output(graph, sigmoid_out) and not _consumer_nodes(\n                remaining_nodes, sigmoid_out\n            ):", "            if not _consumer_nodes(\n                remaining_nodes, sigmoid_out\n            ):", expect="removed::sigmoid_node")
+mutant("c02-orphan-transpose-graph-output-check-removed", "C02", OPT, "                if out_name in graph_output_names:\n                    is_live = True\n                    break\n", "", expect="remove_orphan_transposes_ir")
+mutant("c02-prune-inputs-in-function-bodies", "C02", OPT, '        prune_unused_graph_inputs_ir,\n        function_bodies=False,\n', "        prune_unused_graph_inputs_ir,\n", expect="R-C02e")
+benign("c02-benign-guard-as-flag-loop", "C02", OPT, "            if _any_node_output_observed(graph, nodes, add_chain):\n                continue\n",
+       "            chain_observed = False\n            for chain_member in add_chain:\n                if _value_is_observed(graph, nodes, _node_output(chain_member)):\n                    chain_observed = True\n                    break\n            if chain_observed:\n                continue\n")
+benign("c02-benign-reorder-disjuncts", "C02", OPT, "            if _value_is_observed(graph, nodes, t1_out) or _any_node_output_observed(\n                graph, nodes, elem_nodes\n            ):",
+       "            if _any_node_output_observed(\n                graph, nodes, elem_nodes\n            ) or _value_is_observed(graph, nodes, t1_out):")
+benign("c02-benign-unary-op-added", "C02", OPT, 'ALLOWED_ELEMWISE: Set[str] = {\n    "Elu",', 'ALLOWED_ELEMWISE: Set[str] = {\n    "Softplus",\n    "Elu",')
+benign("c02-benign-direct-predicates", "C02", OPT, "            if _value_is_observed(graph, nodes, reducer_out_val):\n", "            if _value_is_graph_output(graph, reducer_out_val) or _nested_graph_references_value(nodes, reducer_out_val):\n")
